@@ -19,6 +19,6 @@ for n in 1 2 3; do
   if go test -vet=off -count=1 ./$pkg -run 'Demo|TestC[0-9][0-9]' >/tmp/confirm-$p-$n-demo0.log 2>&1; then echo "demo without mutation: PASS (expected)"; else echo "demo without mutation: FAIL (unexpected)"; fi
   rm -f $pkg/zz_demo_test.go
   git -C /repo apply $w/out/patch$n.diff || { echo "APPLY to /repo FAILED"; continue; }
-  /verif/check $p --tier quick -noselftest 2>&1 | grep -E "^VIOLATION|^  harness|^property=|^ERROR|^INCOMPLETE|^SPURIOUS" | head -6 | cut -c1-220
+  /verif/check $p --tier quick -noselftest 2>&1 | grep -E "^VIOLATION|^  harness|^property=|^ERROR|^INCOMPLETE|^SPURIOUS" | head -6 | cut -c1-220; git -C /verif checkout -- evidence/ 2>/dev/null
   git -C /repo checkout -- .
 done
